@@ -237,6 +237,22 @@ def t3_reexport() -> Iterator[Dict[str, Any]]:
                    mod("consumer", 1, ops=flat(frm("pkg.render", "escape"), frm("pkg.render", "render"), frm("pkg", "render", "public"),
                                                alias("q", "escape"), alias("r", "render"), alias("pr", "public")))],
                   "T3", idiom="function-named-like-its-module")
+    # the package imports the class through a module that only forwards it; the DEFINING module lists it in its own __all__
+    # (the module the name is imported FROM has none): documented where the package exports it
+    yield project([mod("p", pkg=True, ops=[frm("_compat", "X", lvl=1)], all=["X"]),
+                   mod("_compat", 1, ops=[frm("_impl", "X", lvl=1)]),
+                   mod("_impl", 1, ops=flat(cls("X", body=[fn("m")])), all=["X"]),
+                   mod("use", 1, ops=flat(frm("p", "X"), cls("U", "X"), frm("p._impl", "X", "X2"), cls("V", "X2"), imp("p"), alias("y", "p.X.m")))],
+                  "T3", idiom="forwarder-and-origin-all")
+    # the re-export followed / preceded by an optional import of the same name from a module that is not there
+    # (try: from ._speedups import X / except ImportError: pass): the member of the package is what the name denotes
+    for order in ("after", "before"):
+        real, opt = frm("_impl", "X", lvl=1), {**frm("_speedups", "X", lvl=1), "try": True}
+        yield project([mod("p", pkg=True, ops=[real, opt] if order == "after" else [opt, real], all=["X"]),
+                       mod("_impl", 1, ops=flat(cls("X", body=[fn("m")]))),
+                       mod("use", 1, ops=flat(imp("p"), cls("D", "p.X"), frm("p", "X"), cls("E", "X"), alias("y", "p.X.m"), frm("p._impl", "X", "X2"), cls("V", "X2")))],
+                      "T3", idiom="optional-speedup-" + order + "-the-reexport")
+    # origin lists the name in its own __all__: no move
     yield project([mod("p", pkg=True, ops=[frm("_impl", "X", lvl=1)], all=["X"]),
                    mod("_impl", 1, ops=flat(cls("X")), all=["X"]),
                    mod("co", 1, ops=flat(frm("p", "X"), cls("D", "X")))], "T3", idiom="origin-all")
